@@ -480,6 +480,33 @@ int main(int argc, char ** argv) {
         }
         tc_free(&TF);
     }
+    {   /* every digit of every radix: #H / #Q / #B items of two equal digits, upper and lower case radix letter, alone and as second
+         * list item behind a decimal one, read by the unsigned 64-bit reader; a digit that does not belong to the radix ends the item and
+         * makes the unit malformed (no handler, a -1xx error) */
+        static const char * dig = "0123456789ABCDEFabcdef";
+        static const struct { char r; int base; } rad[] = {{'H', 16}, {'h', 16}, {'Q', 8}, {'q', 8}, {'B', 2}, {'b', 2}};
+        int ri, di, v;
+        for (ri = 0; ri < 6; ri++) for (di = 0; dig[di]; di++) for (v = 0; v < 2; v++) {
+            char msg[64], exp[160], lit[8]; int ml, dv;
+            if (!MC_CASE()) continue;
+            dv = isdigit((unsigned char) dig[di]) ? dig[di] - '0' : 10 + (toupper((unsigned char) dig[di]) - 'A');
+            sprintf(lit, "#%c%c%c", rad[ri].r, dig[di], dig[di]);
+            mc_case_tag = "radix-digit"; mc_case_s[0] = (const unsigned char *) lit; mc_case_n[0] = 4; mc_case_i[0] = v;
+            tc_reinit(&T, cmds); nsig = v ? 2 : 1; sig[0].reader = v ? R_INT32 : R_UINT64; sig[0].mandatory = 1; sig[1].reader = R_UINT64; sig[1].mandatory = 1; h_ret_err = 0; h_stop = 0; h_own = 0;
+            ml = v ? sprintf(msg, "CMD 5 , %s\n", lit) : sprintf(msg, "CMD %s\n", lit);
+            tr_reset();
+            SCPI_Input(&T.ctx, msg, ml);
+            n_cases++;
+            if (dv < rad[ri].base) {
+                if (v) sprintf(exp, "H;r1=5;r1=%llu;X0;", (unsigned long long) (dv * rad[ri].base + dv)); else sprintf(exp, "H;r1=%llu;X0;", (unsigned long long) (dv * rad[ri].base + dv));
+                if (strcmp(TR, exp)) mc_viol("c05/nondecimal-digit", "message [%s]: trace [%s], expected [%s]", mc_e(msg, (size_t) ml), mc_es(TR), exp);
+                else n_wellformed++;
+            } else {
+                if (strstr(TR, "H;") || !(strstr(TR, "E-1") == TR)) mc_viol("c05/nondecimal-digit/malformed-item-reached-handler", "message [%s] (digit outside the radix): trace [%s], expected command errors only", mc_e(msg, (size_t) ml), mc_es(TR));
+                else n_malformed++;
+            }
+        }
+    }
     {   /* every unit suffix of IEEE 488.2 table 7-1 that the pinned library knows (golden_units.h, not the library's own table) is a
          * KNOWN suffix: delivered with its unit and multiplier by the number reader, alone and as an item of a list; the same name with
          * one more letter is unknown (-131) */
